@@ -110,9 +110,13 @@ func checkC12(c *CheckCtx) error {
 		case 2:
 			upd = bp(false)
 		case 3:
-			jc = &JSONCfg{Width: 20, Indent: "    ", SortKeys: false}
-			if n%8 == 3 {
+			switch (n / 4) % 3 {
+			case 0:
+				jc = &JSONCfg{Width: 20, Indent: "    ", SortKeys: false}
+			case 1:
 				jc = &JSONCfg{Width: 0, Indent: " ", SortKeys: true} // as in the library's own examples
+			default:
+				jc = &JSONCfg{Width: 40, SortKeys: true} // only some fields filled in: no indentation at all
 			}
 		}
 		mode := []string{"ci", "default", "update"}[n%3]
@@ -153,5 +157,57 @@ func checkC19(c *CheckCtx) error {
 	if err := c.randomFraming(c.pick(150, 3000), []string{"ssnap", "ssnap", "sjson"}, []string{"default", "ci", "update", "other", "color"}, 0.4, "r"); err != nil {
 		return err
 	}
+	if err := c.runSeq(reformattedStandalone()); err != nil {
+		return err
+	}
 	return c.repro(reproK8())
+}
+
+// reformattedStandalone: one standalone JSON file addressed through Configs that differ only in
+// their JSON formatting options. The file IS the formatted value (C19): the same document in another
+// format is a different file, so the second Config's call fails (or rewrites in update mode).
+func reformattedStandalone() []*Scenario {
+	docs := []string{`{"b":{"y":[1,2,{"z":"w"}]},"a":{"x":1}}`, `{"list":[{"k":1},{"k":2}],"name":"n"}`}
+	fmts := map[string]*JSONCfg{
+		"k4":   {Width: 80, Indent: "    ", SortKeys: true},
+		"kns":  {Width: 80, Indent: " ", SortKeys: false},
+		"kw":   {Width: 3, Indent: " ", SortKeys: true},
+		"kfl":  {Width: 80, Indent: "", SortKeys: true},
+		"ktab": {Width: 80, Indent: "\t", SortKeys: true},
+	}
+	names := []string{"k4", "kfl", "kns", "ktab", "kw"}
+	var out []*Scenario
+	n := 0
+	for di, doc := range docs {
+		for _, k := range names {
+			if k == "kns" && di == 1 {
+				continue // keys already sorted: both formats coincide
+			}
+			if k == "kw" {
+				continue // width only matters for arrays of scalars that fit: none here
+			}
+			for _, mode := range []string{"ci", "default", "update"} {
+				for _, rev := range []bool{false, true} {
+					n++
+					sc := &Scenario{ID: fmt.Sprintf("rf%d", n), Configs: stdConfigs(), Program: []string{"TestA"}}
+					sc.Configs[k] = &Cfg{Dir: sp("@/snaps"), JSON: fmts[k]}
+					first, second := "c", k
+					if rev {
+						first, second = k, "c"
+					}
+					val := strVal(doc)
+					mk := func(cfg string) []*Step {
+						return []*Step{{Op: "begin", Name: "TestA"}, {Op: "match", Name: "TestA", API: "sjson", Cfg: cfg, Val: val}, {Op: "end", Name: "TestA"}}
+					}
+					sc.Procs = append(sc.Procs, &Proc{Spec: procSpec("default"), Steps: mk(first)})
+					sc.Procs = append(sc.Procs, &Proc{Spec: procSpec(mode), Steps: mk(second)})
+					sc.Procs = append(sc.Procs, &Proc{Spec: procSpec("ci"), Steps: mk(second)})
+					sc.Procs = append(sc.Procs, &Proc{Spec: procSpec("ci"), Steps: mk(first)})
+					sc.Note = fmt.Sprintf("standalone JSON file written with %s, addressed with %s in mode %s", first, second, mode)
+					out = append(out, sc)
+				}
+			}
+		}
+	}
+	return out
 }
